@@ -5,6 +5,7 @@ and a farther candidate overwrites a nearer one."""
 import ast
 
 from ..core.astutil import u, ncmp, parent_map, stable_text
+from ..core.peval import peval
 
 
 def _guards(f):
@@ -27,6 +28,7 @@ def r_runmin(idx, rep, modules, rule="R-RUNMIN", floor=2):
         if m is None:
             continue
         for f in m.functions.values():
+            f = peval(idx, f)
             gs = _guards(f)
             if not gs:
                 continue
